@@ -1275,6 +1275,21 @@ RunResult execute_plan(const Plan &plan_in, const ExecOptions &opt) {
     heap_forget_all();
     if (ex.aborted) break;
   }
+  // C16: a violation that only the C++ library shows is a difference between the two interfaces
+  if (!opt.raw && plan.backends == 3 && !any_aborted) {
+    std::set<std::string> in_c;
+    for (auto &v : res.violations) if (v.backend == 0) in_c.insert(v.cls() + "@" + std::to_string(v.op));
+    std::vector<Violation> extra;
+    for (auto &v : res.violations)
+      if (v.backend == 1 && v.prop != "C16" && !in_c.count(v.cls() + "@" + std::to_string(v.op))) {
+        Violation x = v;
+        x.prop = "C16";
+        x.kind = "cxx_only_" + v.kind;
+        x.detail = "only the C++ library: [" + v.prop + "] " + v.detail;
+        extra.push_back(x);
+      }
+    for (auto &x : extra) res.violations.push_back(x);
+  }
   // C16: both libraries must have produced the same history
   if (!opt.raw && plan.backends == 3 && !any_aborted) {
     size_t n = std::min(logs[0].size(), logs[1].size());
